@@ -296,9 +296,10 @@ def obligations(tier):
     srv("server/chunkext", "chunkext", kinds=["replace", "none"], alpha=ALPHA_S, orders=("AB",))
     for base in ("fixed", "chunked", "close"):
         cli("client/%s" % base, base, covers=("response-recorded", "error-recorded", "waits"))
+    # event stream: no response record is made for an evented response, only "never raises" applies
+    cli("client/sse", "sse", kinds=["replace", "truncate", "none"] if quick else KINDS)
     if not quick:
         cli("client/json", "json", covers=("response-recorded", "error-recorded"))
-        cli("client/sse", "sse")
         for base in ("get", "chunked"):
             srv("server/%s/split-delivery" % base, base, kinds=["replace"], alpha=ALPHA_S, orders=("AB",),
                 split=True, covers=full)
